@@ -942,8 +942,8 @@ func (p *Process) stopProbes() {
 	}
 }
 
-func (p *Process) onLivenessCheckEnd(_, isFatal bool, err string) {
-	verifTrace(p, "Probe", "kind", "live", "ok", !isFatal, "fatal", isFatal)
+func (p *Process) onLivenessCheckEnd(isOk, isFatal bool, err string) {
+	verifTrace(p, "Probe", "kind", "live", "ok", isOk, "fatal", isFatal)
 	if isFatal {
 		log.Info().Msgf("%s is not alive anymore - %s", p.getName(), err)
 		p.logBuffer.Write("Error: liveness check fail - " + err)
